@@ -1130,12 +1130,22 @@ def exact_select(
     if not afs:
         return None
 
-    pick = min if is_min else max
     joined = reduce(lambda a, b: a | b, afs)
+    # An operand that may be an infinity of the losing sign does not order the
+    # result: `min(x, +inf)` is `x`, so only operands without a `+inf` cap a
+    # `min` from above (and only those without a `-inf` cap a `max` from below).
+    if is_min:
+        caps = [af.pos_bound for af in afs if not af.has_pos_inf]
+        pos_bound = min(caps) if caps else joined.pos_bound
+        neg_bound = joined.neg_bound
+    else:
+        caps = [af.neg_bound for af in afs if not af.has_neg_inf]
+        pos_bound = joined.pos_bound
+        neg_bound = max(caps) if caps else joined.neg_bound
     return AbstractFormat(
         joined.prec, joined.exp,
-        pick(af.pos_bound for af in afs),
-        neg_bound=pick(af.neg_bound for af in afs),
+        pos_bound,
+        neg_bound=neg_bound,
         has_pos_inf=joined.has_pos_inf,
         has_neg_inf=joined.has_neg_inf,
         has_nan=joined.has_nan,
